@@ -11,7 +11,7 @@
    [r_c22]  : known class "blank-line-in-literal" (a physical line inside a literal holds only white
               space and is not exactly one blank) *)
 From Coq Require Import String Ascii Bool List Sorted.
-From CBI Require Import Lib.Data Model.C05 Spec.C05 Model.C05r Proofs.C05n Proofs.C05.
+From CBI Require Import Lib.Data Model.C05 Spec.C05 Spec.C05f Model.C05r Proofs.C05n Proofs.C05.
 Import ListNotations.
 Local Open Scope string_scope.
 
@@ -49,6 +49,32 @@ Theorem C05_directive_extent :
       t_total_sloc tr = List.length (S_counted (cls_lines ls)).
 Proof. exact nodes_spec_text. Qed.
 Print Assumptions C05_directive_extent.
+
+(* The same two statements with the specification computed from the CHARACTERS
+   of the text alone (Spec/C05f.v: phase 2 deletes backslash-newline pairs in the
+   character sequence; nothing of the model's line splitting is used), for every
+   text that ends in a newline (ISO C 5.1.1.2). *)
+Theorem C05_counted_lines_raw :
+  forall (t : list ascii),
+    ends_nl t = true ->
+    r_wf (F_scan t) = true -> r_c20 (F_scan t) = false -> r_c22 (F_scan t) = false ->
+    exists out total n,
+      M_file_source t = FsOk out total n /\
+      map (fun l : lline osl => (ll_lines l, match ll_cat l with CPPD => true | _ => false end)) out
+        = r_logical (F_scan t) /\
+      flat out = concat (map fst (r_logical (F_scan t))).
+Proof. exact counted_lines_raw. Qed.
+Print Assumptions C05_counted_lines_raw.
+
+Theorem C05_directive_extent_raw :
+  forall (t : list ascii),
+    ends_nl t = true ->
+    r_wf (F_scan t) = true -> r_c20 (F_scan t) = false -> r_c22 (F_scan t) = false ->
+    exists tr, M_parse_file t = Some tr /\
+      map (fun x => (n_kind x, n_lines x)) (t_nodes tr) = group [] (r_logical (F_scan t)) /\
+      t_total_sloc tr = List.length (concat (map fst (r_logical (F_scan t)))).
+Proof. exact nodes_spec_raw. Qed.
+Print Assumptions C05_directive_extent_raw.
 
 (* For EVERY text on which parse_file succeeds (well-formed or not, inside the
    known classes or not): the lines of all nodes, in tree order, are strictly
